@@ -410,7 +410,11 @@ Definition sh_eng (d : N) (o : obs) : obs := match o with OT t l => OT t (map (s
 
 Definition c12_expected (c : eng_case) : obs :=
   match c with
-  | Eng rules root data offset flags => OT "C12" [eng_expected (Eng rules root data 1 flags); eng_expected c]
+  | Eng rules root data offset flags =>
+    let e1 := eng_expected (Eng rules root data 1 flags) in
+    (* far placements (megabytes of preceding files): the model's answer is the shift of its answer for the file
+       alone — that is theorem C12_eng_placement — instead of building the filler file in the model *)
+    OT "C12" [e1; if 4096 <? offset then sh_eng (offset - 1) e1 else eng_expected c]
   end.
 Definition c12_oracle (c : eng_case) (o : obs) : bool :=
   match c, o with
